@@ -12,7 +12,7 @@ def add_worktree(wt):
         time.sleep(0.5 + attempt * 0.2)
     raise RuntimeError("git worktree add failed for " + wt)
 
-PROPS = "C01 C02 C03 C04 C05 C08 C09 C10 C12 C13 C14 C15 C16 C17 C18 C19 C20".split()
+PROPS = "C01 C02 C03 C04 C05 C06 C07 C08 C09 C10 C12 C13 C14 C15 C16 C17 C18 C19 C20".split()
 update = "--update" in sys.argv
 flt = [a for a in sys.argv[1:] if not a.startswith("--")]
 def one(name):
